@@ -133,6 +133,7 @@ def r2_iter(chk, ens):
     key = f"{it.key}:fresh-iterator"
     if contains_yield(it.node):
         chk.ok("C14.R2", key, it.where(), "generator function: a fresh iterator per loop")
+        _fresh_view_per_step(chk, it, [it])
         return
     rets = [s for s in walk_no_nested(it.node) if isinstance(s, ast.Return)]
     chk.require(len(rets) >= 1, "__iter__ has no return")
@@ -169,10 +170,46 @@ def r2_iter(chk, ens):
                "the iterator handed out reads a cursor stored on the ensemble" if cursor else
                (f"the iterator handed out runs `{short(shared[0][1], 50)}` in {shared[0][0].qualname}: it advances a cursor stored on the ensemble, which every loop over the same ensemble shares "
                 "(nested loops over 7 conformers visit 7 pairs instead of 49)" if shared else ""))
+    _fresh_view_per_step(chk, it, [prog.method(ens, nm) for nm in seen if prog.method(ens, nm) is not None] + [it])
     gi = prog.method(ens, "__getitem__")
     chk.require(gi is not None, "ConformerEnsemble.__getitem__ vanished")
     ok = "Conformer(self, _i)" in norm(gi.node) or "Conformer(self," in norm(gi.node)
     chk.decide(ok, "C14.R2", f"{gi.key}:view-per-index", gi.where(), "ens[i] is Conformer(self, i)", "ens[i] is no longer a Conformer view of row i")
+
+
+def _fresh_view_per_step(chk, it, funcs):
+    """every step of the iteration hands out its own view object: a view that is created once and re-pointed at the next row on
+    every step makes all conformers collected from the loop (list(ens), max(ens, key=...), a pair kept from two steps) the same object"""
+    key = f"{it.key}:each-step-yields-its-own-view"
+    n = 0
+    for f in funcs:
+        for loop in [l for l in walk_no_nested(f.node) if isinstance(l, (ast.For, ast.While))]:
+            bound_in_loop = {x.id for b in loop.body for x in ast.walk(b) if isinstance(x, ast.Name) and isinstance(x.ctx, ast.Store)}
+            if isinstance(loop, ast.For):
+                bound_in_loop |= {x.id for x in ast.walk(loop.target) if isinstance(x, ast.Name) and isinstance(x.ctx, ast.Store) and not _inside_attr(loop.target, x)}
+            for y in [y for b in loop.body for y in walk_no_nested(b) if isinstance(y, ast.Yield) and y.value is not None]:
+                n += 1
+                v = y.value
+                if isinstance(v, ast.Name) and v.id not in bound_in_loop:
+                    chk.fail("C14.R2", key, f.where(y), f"`yield {v.id}` hands out the object `{v.id}` created before the loop on every step (only its row index is moved): "
+                             "conformers kept from different steps are one object showing the last row - list(ens) holds n views of the last conformer, "
+                             "and a write through a kept conformer lands in another row")
+                    return
+        for g in [g for g in walk_no_nested(f.node) if isinstance(g, ast.GeneratorExp)]:
+            n += 1
+            tg = {x.id for c in g.generators for x in ast.walk(c.target) if isinstance(x, ast.Name)}
+            if isinstance(g.elt, ast.Name) and g.elt.id not in tg:
+                chk.fail("C14.R2", key, f.where(g), f"the generator hands out the one object `{g.elt.id}` on every step")
+                return
+    chk.ok("C14.R2", key, it.where(), f"{n} yielding construct(s); each step builds (or fetches by index) its own Conformer view")
+
+
+def _inside_attr(target, name_node):
+    """`for conf._conf_id in ...`: the Name `conf` under an Attribute target is not bound by the loop"""
+    for a in ast.walk(target):
+        if isinstance(a, ast.Attribute) and any(x is name_node for x in ast.walk(a.value)):
+            return True
+    return False
 
 
 def r3_view(chk, conf, ens):
